@@ -1,23 +1,296 @@
-import RulioModel.Spec
+import RulioProofs.PatIndexHist
 
-/-! # C01 — dispatch (placeholder obligations until the index proofs land) -/
+/-! # C01 — event dispatch evaluates exactly the rules whose `when` matches: the rule index
 
-/-- booleans are ordered when pattern-index values are sorted (false before true) -/
-theorem bools_sorted :
-    (match sortValues [.bool true, .bool false] with
-     | .ok [.bool a, .bool b] => !a && b | _ => false) = true := by decide
+Property theorems only (helper lemmas are in `RulioProofs/PatIndex*.lean`, the vocabulary —
+`PI.path`, `PI.idsAt`, `PI.Emb`, `IdxOK`, `EvOK`, `IdxSt` — in `RulioModel/PatIndexSpec.lean`).
 
-/-- the root's ids are part of every search result -/
-theorem root_ids_collected (ri : PI) (ev : Obj) (ids : List String) (id : String)
-    (h : piSearch ri ev = .ok ids) (hr : id ∈ ri.ids) : id ∈ ids := by
-  unfold piSearch at h
-  cases hs : PI.search (searchFuel (mapToPairs ev)) ri (mapToPairs ev) with
-  | error e => simp [hs, Except.map] at h
-  | ok l =>
-    simp [hs, Except.map] at h
-    subst h
-    unfold union
-    by_cases hl : id ∈ l
-    · exact List.mem_append_left _ hl
-    · apply List.mem_append_right
-      simp [List.mem_filter, hr, hl]
+The index part of C01 is: *no matching rule is ever skipped because of how rules are indexed*.
+It is the composition of
+
+1. `mod_adds_at_path` / `mod_rems_at_path` / `mod_fuel_independent` — what `PatternIndex.mod` does;
+2. `search_embeds` — `searchPairs` follows every embedded path, whatever else is in the trie;
+3. `match_embeds` — a pattern of the fragment `IdxOK` that lies over an event of the fragment `EvOK` embeds;
+4. `index_invariant`, `index_complete` — for all histories of index operations and all events;
+5. negative theorems with concrete witnesses for what lies outside the fragments (recorded findings).
+
+All statements are about the executable model (`PI.mod`, `PI.search`, `piAdd`, `piRem`, `piSearch`), for every
+fuel above the size bound (`searchFuel`), i.e. the fuel is a proof device and not part of the semantics. -/
+
+open PI
+
+/-! ## 1. what `mod` does -/
+
+/-- **`mod` adds the id exactly at the end of the path.** If the pairs have a path `π` (no unsortable array),
+then for every fuel `≥ searchFuel pairs` the add succeeds, `id` is on the node at `π` afterwards, and every
+other (node, id') membership of the trie is unchanged. -/
+theorem mod_adds_at_path (idx : PI) (pairs : List (String × J)) (id : String) (π : List Edge) (fuel : Nat)
+    (hπ : path pairs = some π) (hf : searchFuel pairs ≤ fuel) :
+    (PI.mod fuel idx pairs id true).2 = none ∧
+    id ∈ (PI.mod fuel idx pairs id true).1.idsAt π ∧
+    ∀ ρ id', (ρ ≠ π ∨ id' ≠ id) →
+      (id' ∈ (PI.mod fuel idx pairs id true).1.idsAt ρ ↔ id' ∈ idx.idsAt ρ) := by
+  obtain ⟨h1, h2⟩ := mod_spec id true fuel idx pairs (Nat.lt_of_lt_of_le (searchFuel_gt pairs) hf)
+  rw [hπ] at h1 h2
+  refine ⟨h1.2 rfl, h2.add_mem, ?_⟩
+  intro ρ id' hne
+  rw [h2 ρ]
+  by_cases hρ : some π = some ρ
+  · simp only [hρ, if_true, mem_updIds_add]
+    have : ρ = π := (Option.some.inj hρ).symm
+    rcases hne with h | h
+    · exact absurd this h
+    · simp [h]
+  · simp [hρ]
+
+/-- **`mod` removes the id exactly at the end of the path** (id lists duplicate free, as in every trie built
+by `mod` from the empty one): afterwards `id` is not on the node at `π`, all other memberships are unchanged. -/
+theorem mod_rems_at_path (idx : PI) (pairs : List (String × J)) (id : String) (π : List Edge) (fuel : Nat)
+    (hn : NodupIds idx) (hπ : path pairs = some π) (hf : searchFuel pairs ≤ fuel) :
+    (PI.mod fuel idx pairs id false).2 = none ∧
+    id ∉ (PI.mod fuel idx pairs id false).1.idsAt π ∧
+    ∀ ρ id', (ρ ≠ π ∨ id' ≠ id) →
+      (id' ∈ (PI.mod fuel idx pairs id false).1.idsAt ρ ↔ id' ∈ idx.idsAt ρ) := by
+  obtain ⟨h1, h2⟩ := mod_spec id false fuel idx pairs (Nat.lt_of_lt_of_le (searchFuel_gt pairs) hf)
+  rw [hπ] at h1 h2
+  refine ⟨h1.2 rfl, ?_, ?_⟩
+  · rw [h2 π]; simp only [if_true, mem_updIds_rem (hn π)]; simp
+  · intro ρ id' hne
+    rw [h2 ρ]
+    by_cases hρ : some π = some ρ
+    · simp only [hρ, if_true, mem_updIds_rem (hn ρ)]
+      have : ρ = π := (Option.some.inj hρ).symm
+      rcases hne with h | h
+      · exact absurd this h
+      · simp [h]
+    · simp [hρ]
+
+/-- **a rejected `mod` changes no id list**, and `mod` is rejected exactly when the pairs have no path (some
+array is not sortable); duplicate-freeness of the id lists is preserved in every case. -/
+theorem mod_failure_harmless (idx : PI) (pairs : List (String × J)) (id : String) (add : Bool) (fuel : Nat)
+    (hf : searchFuel pairs ≤ fuel) :
+    ((PI.mod fuel idx pairs id add).2 = none ↔ (path pairs).isSome = true) ∧
+    (path pairs = none → ∀ ρ, (PI.mod fuel idx pairs id add).1.idsAt ρ = idx.idsAt ρ) ∧
+    (NodupIds idx → NodupIds (PI.mod fuel idx pairs id add).1) := by
+  obtain ⟨h1, h2⟩ := mod_spec id add fuel idx pairs (Nat.lt_of_lt_of_le (searchFuel_gt pairs) hf)
+  refine ⟨h1, ?_, h2.nodup⟩
+  intro hnone ρ
+  rw [hnone] at h2
+  simpa using h2 ρ
+
+/-- **the fuel is a proof device**: any fuel `≥ searchFuel pairs` gives the result of the well-founded
+version `PI.modW`, hence the same result as any larger fuel. -/
+theorem mod_fuel_independent (idx : PI) (pairs : List (String × J)) (id : String) (add : Bool) (f1 f2 : Nat)
+    (h1 : searchFuel pairs ≤ f1) (h2 : f1 ≤ f2) :
+    PI.mod f1 idx pairs id add = PI.modW idx pairs id add ∧
+    PI.mod f1 idx pairs id add = PI.mod f2 idx pairs id add := by
+  have g1 : szO pairs < f1 := Nat.lt_of_lt_of_le (searchFuel_gt pairs) h1
+  have g2 : szO pairs < f2 := Nat.lt_of_lt_of_le g1 h2
+  exact ⟨mod_eq_modW id add f1 idx pairs g1, mod_fuel_indep id add f1 f2 idx pairs g1 g2⟩
+
+/-- non-vacuity: a nested pattern with an array has a path; adding it to a non-empty trie puts the id there -/
+example :
+    path (mapToPairs [("b", .obj [("c", .str "?x")]), ("a", .arr [.num 2, .num 1])]) =
+      some [.str "a", .str "F_1", .str "a", .str "F_2", .str "b", .map, .str "c", .var] := by decide +kernel
+example :
+    ((piAdd (piAdd PI.empty [("a", .num 1)] "r0").1
+        [("b", .obj [("c", .str "?x")]), ("a", .arr [.num 2, .num 1])] "r").1.idsAt
+      [.str "a", .str "F_1", .str "a", .str "F_2", .str "b", .map, .str "c", .var]) = ["r"] := by decide +kernel
+example : NodupIds PI.empty := nodupIds_empty
+
+/-! ## 2. the search follows every embedded path -/
+
+/-- **`search_embeds`**: if `id` sits on the node at the end of the non-empty path `π` below `idx`, and `π`
+embeds in the event pairs `E` (relation `PI.Emb`, which does not mention the trie), then every successful
+`PI.search` from `idx` on `E`, with any fuel above the size of `E`, returns `id`.  No assumption on what else
+the trie contains. -/
+theorem search_embeds (idx : PI) (π : List Edge) (E : List (String × J)) (id : String) (fuel : Nat)
+    (ids : List String) (hne : π ≠ []) (hid : id ∈ idx.idsAt π) (hemb : Emb π E) (hf : szO E < fuel)
+    (hs : PI.search fuel idx E = .ok ids) : id ∈ ids :=
+  found_of_emb hemb idx hne hid fuel ids hf hs
+
+/-- **`search_embeds` for `SearchPatternsMap`**: same for `piSearch` (which also returns the root's ids, so
+the empty path is covered). -/
+theorem piSearch_embeds (ri : PI) (ev : Obj) (π : List Edge) (id : String) (ids : List String)
+    (hid : id ∈ ri.idsAt π) (hemb : Emb π (mapToPairs ev)) (hs : piSearch ri ev = .ok ids) : id ∈ ids :=
+  piSearch_of_emb hid hemb hs
+
+/-- **the search never fails on an event of the fragment** (ground, arrays sortable), whatever is indexed -/
+theorem piSearch_succeeds (ri : PI) (ev : Obj) (hev : EvOK ev = true) : ∃ ids, piSearch ri ev = .ok ids :=
+  piSearch_total ri hev
+
+/-- non-vacuity: an embedding that uses skip, expand, const, mapIn and var -/
+example : Emb [.str "a", .str "F_2", .str "b", .map, .str "c", .var]
+    (mapToPairs [("b", .obj [("c", .num 7), ("d", .null)]), ("a", .arr [.num 2, .num 1]), ("0", .bool true)]) := by
+  have h : mapToPairs [("b", .obj [("c", .num 7), ("d", .null)]), ("a", .arr [.num 2, .num 1]), ("0", .bool true)]
+      = [("0", .bool true), ("a", .arr [.num 2, .num 1]), ("b", .obj [("c", .num 7), ("d", .null)])] := by
+    rfl
+  rw [h]
+  refine .skip _ _ _ (.expand "a" _ [.num 1, .num 2] _ _ (by rfl) ?_)
+  refine .skip _ _ _ (.const "a" (.num 2) "F_2" _ _ (by rfl) ?_)
+  refine .mapIn "b" _ _ _ ?_
+  have h2 : mapToPairs [("c", J.num 7), ("d", J.null)] = [("c", .num 7), ("d", .null)] := by rfl
+  rw [h2]
+  exact .var "c" (.num 7) _ _ [("d", .null)] (by rfl) (.done _)
+
+/-! ## 3. a pattern that lies over an event embeds in it -/
+
+/-- **`match_embeds`**: for a pattern `p` in the fragment `IdxOK` (constant, pairwise distinct keys; no
+optional variable; every array is empty, a singleton `[variable]` / `[map]` / `[scalar]`, or consists of
+scalar constants of one sortable type) and an event `ev` in the fragment `EvOK` (ground; every array is
+empty, a singleton `[map]` / `[scalar]`, or consists of scalars of one sortable type): if some bindings lay
+the pattern over the event (`pmv`, the specification C05 relates `matchJ` to), then the pattern has a path
+and that path embeds in the event's pairs. -/
+theorem match_embeds (σ : Bs) (p ev : Obj) (hp : IdxOK p = true) (hev : EvOK ev = true)
+    (hm : pmv σ (.obj p) (.obj ev) = true) :
+    ∃ π, path (mapToPairs p) = some π ∧ Emb π (mapToPairs ev) :=
+  emb_of_pmv σ hp hev hm
+
+/-- non-vacuity: a pattern and an event of the fragments (nested map, arrays, variable), and they match -/
+example : IdxOK [("b", .obj [("c", .str "?x")]), ("a", .arr [.num 2, .num 1]), ("e", .arr [.obj []])] = true := by
+  decide +kernel
+example : EvOK [("b", .obj [("c", .num 7), ("d", .null)]), ("a", .arr [.num 3, .num 2, .num 1]),
+    ("e", .arr [.obj [("z", .bool true)]])] = true := by decide +kernel
+example : pmv [("?x", .num 7)] (.obj [("b", .obj [("c", .str "?x")]), ("a", .arr [.num 2, .num 1])])
+    (.obj [("b", .obj [("c", .num 7), ("d", .null)]), ("a", .arr [.num 3, .num 2, .num 1])]) = true := by
+  have ha : isVar "a" = false := by decide +kernel
+  have hb : isVar "b" = false := by decide +kernel
+  have hc : isVar "c" = false := by decide +kernel
+  have hx : isVar "?x" = true := by decide +kernel
+  simp [pmv_obj, pmO_cons_const _ ha, pmO_cons_const _ hb, pmO_cons_const _ hc, pmO_nil, lookupKey, pmv_arr,
+    pmA_cons, pmA_nil, pmPick_cons, pmPick_nil, pmv_str, pmStr, Bs.get?, hx, pmv.eq_def, BEq.beq, J.beq]
+
+/-! ## 4. all histories -/
+
+/-- **the index invariant holds after every history** of index operations as `IndexedState.add` / `rem`
+perform them (`IdxSt.add`: unindex the previous pattern stored under the id — an error aborts —, index the
+new one, put the previous one back if the new one is rejected; `IdxSt.rem`: unindex the stored pattern):
+id lists are duplicate free and every stored `(id, pattern)` has a path with `id` on the node at its end. -/
+theorem index_invariant (ops : List IOp) :
+    NodupIds (IdxSt.run {} ops).ri ∧ Indexed (IdxSt.run {} ops).ri (IdxSt.run {} ops).rules :=
+  hinv_run ops {} hinv_init
+
+/-- **frame**: index operations under an id never disturb another id's entries; an `add` never removes
+anything; a `rem` of pattern `q` under `id'` keeps `id` at `π` unless `id' = id` and `π` is the path of `q`. -/
+theorem index_ops_frame (ri : PI) (q : Obj) (id id' : String) (π : List Edge) (hn : NodupIds ri)
+    (hid : id ∈ ri.idsAt π) :
+    id ∈ (piAdd ri q id').1.idsAt π ∧
+    (¬ (id' = id ∧ path (mapToPairs q) = some π) → id ∈ (piRem ri q id').1.idsAt π) := by
+  refine ⟨(piAdd_spec ri q id').2.add_mono hid, ?_⟩
+  intro hne
+  have h := (piRem_spec ri q id').2 π
+  rw [h]
+  by_cases hp : path (mapToPairs q) = some π
+  · simp only [hp, if_true]
+    exact (mem_updIds_rem (hn π)).2 ⟨hid, fun h' => hne ⟨h'.symm, hp⟩⟩
+  · simp only [hp, if_false]; exact hid
+
+/-- **`index_complete`** (the for-all-pairs claim): after every history of index operations, for every event
+of the fragment `EvOK`, the candidate search succeeds, and every currently indexed `(id, pattern)` with
+`IdxOK pattern` whose pattern lies over the event is among the candidates.  No matching rule of the fragment
+is ever skipped because of how rules are indexed. -/
+theorem index_complete (ops : List IOp) (ev : Obj) (id : String) (p : Obj) (σ : Bs)
+    (hstored : amGet (IdxSt.run {} ops).rules id = some p) (hp : IdxOK p = true) (hev : EvOK ev = true)
+    (hm : pmv σ (.obj p) (.obj ev) = true) :
+    ∃ ids, piSearch (IdxSt.run {} ops).ri ev = .ok ids ∧ id ∈ ids := by
+  obtain ⟨π, hπ, hid⟩ := (index_invariant ops).2 id p hstored
+  obtain ⟨π', hπ', hemb⟩ := match_embeds σ p ev hp hev hm
+  rw [hπ] at hπ'; cases hπ'
+  obtain ⟨ids, hs⟩ := piSearch_succeeds (IdxSt.run {} ops).ri ev hev
+  exact ⟨ids, hs, piSearch_embeds _ ev π id ids hid hemb hs⟩
+
+/-- non-vacuity: a history with a replacement and a removal; the surviving rules are stored and found, the
+replaced pattern and the removed rule are not -/
+example :
+    let s := IdxSt.run {} [.add "r1" [("a", .num 1)], .add "r2" [("b", .str "?x")], .add "r1" [("a", .num 2)],
+      .rem "r2", .add "r3" [("a", .arr [.num 2])]]
+    (amGet s.rules "r1").map (fun p => path (mapToPairs p)) = some (some [.str "a", .str "F_2"]) ∧
+    (amGet s.rules "r2").isNone = true ∧
+    (foundIn (piSearch s.ri [("a", .arr [.num 1, .num 2]), ("b", .null)]) "r3" = true ∧
+    foundIn (piSearch s.ri [("a", .num 2), ("b", .null)]) "r1" = true ∧
+    foundIn (piSearch s.ri [("a", .num 1), ("b", .null)]) "r1" = false ∧
+    foundIn (piSearch s.ri [("a", .num 2), ("b", .null)]) "r2" = false) := by
+  decide +kernel
+
+/-! ## 5. outside the fragments: recorded findings of the real code (concrete witnesses) -/
+
+/-- (a) an array holding a variable and a constant whose sort order separates them:
+`when {"a":["?x","1"]}` is found for the event `{"a":["1","2"]}` but **not** for `{"a":["0","1"]}`, although
+the pattern lies over both (`?x ↦ "2"`, resp. `?x ↦ "0"`). -/
+theorem var_and_const_in_array_missed :
+    let p : Obj := [("a", .arr [.str "?x", .str "1"])]
+    let ri := (piAdd PI.empty p "r").1
+    foundIn (piSearch ri [("a", .arr [.str "1", .str "2"])]) "r" = true ∧
+    foundIn (piSearch ri [("a", .arr [.str "0", .str "1"])]) "r" = false ∧
+    piSearch ri [("a", .arr [.str "0", .str "1"])] = .ok [] ∧
+    pmv [("?x", .str "2")] (.obj p) (.obj [("a", .arr [.str "1", .str "2"])]) = true ∧
+    pmv [("?x", .str "0")] (.obj p) (.obj [("a", .arr [.str "0", .str "1"])]) = true ∧
+    IdxOK p = false := by
+  have ha : isVar "a" = false := by decide +kernel
+  have hx : isVar "?x" = true := by decide +kernel
+  have h1 : isVar "1" = false := by decide +kernel
+  refine ⟨by decide +kernel, by decide +kernel, by decide +kernel, ?_, ?_, by decide +kernel⟩
+  · simp [pmv_obj, pmO_cons_const _ ha, pmO_nil, lookupKey, pmv_arr, pmA_cons, pmA_nil, pmPick_cons,
+      pmPick_nil, pmv_str, pmStr, Bs.get?, hx, h1, BEq.beq, J.beq]
+  · simp [pmv_obj, pmO_cons_const _ ha, pmO_nil, lookupKey, pmv_arr, pmA_cons, pmA_nil, pmPick_cons,
+      pmPick_nil, pmv_str, pmStr, Bs.get?, hx, h1, BEq.beq, J.beq]
+
+/-- (b) a pattern array mixing a variable and a number (`["?x",1]`) is rejected by the index (`notSortable`);
+the trie's id lists are left unchanged (`mod_failure_harmless`). -/
+theorem var_and_number_in_array_rejected :
+    (piAdd PI.empty [("a", .arr [.str "?x", .num 1])] "r").2 = some .notSortable ∧
+    path (mapToPairs [("a", .arr [.str "?x", .num 1])]) = none := by
+  constructor <;> decide +kernel
+
+/-- (c) a property-variable rule `{"?p":1}` is found for `{"a":1}` in an otherwise empty index, but no longer
+once another pattern using the concrete key `a` has been added (the `"?"` child is only consulted when the
+concrete key is absent). -/
+theorem property_variable_hidden :
+    let ri1 := (piAdd PI.empty [("?p", .num 1)] "r").1
+    let ri2 := (piAdd ri1 [("a", .num 2)] "r2").1
+    foundIn (piSearch ri1 [("a", .num 1)]) "r" = true ∧
+    foundIn (piSearch ri2 [("a", .num 1)]) "r" = false ∧
+    piSearch ri2 [("a", .num 1)] = .ok [] ∧
+    IdxOK [("?p", .num 1)] = false := by
+  refine ⟨by decide +kernel, by decide +kernel, by decide +kernel, by decide +kernel⟩
+
+/-- (d) an event with a heterogeneous array `{"a":[1,"x"]}` is processed normally as long as no indexed
+pattern uses the key `a` (the rule on `b` is found), and makes the whole search fail (`notSortable`) as soon
+as one does — hiding the rule on `b` as well. -/
+theorem hetero_event_array_fails :
+    let ev : Obj := [("a", .arr [.num 1, .str "x"]), ("b", .num 1)]
+    let ri1 := (piAdd PI.empty [("b", .num 1)] "r").1
+    let ri2 := (piAdd ri1 [("a", .num 2)] "r2").1
+    foundIn (piSearch ri1 ev) "r" = true ∧
+    failsWith (piSearch ri2 ev) .notSortable = true ∧
+    EvOK ev = false := by
+  refine ⟨by decide +kernel, by decide +kernel, by decide +kernel⟩
+
+/-- the repairs of `searchPairs` / `SearchPatternsMap` are visible in the model: a pattern ending with an
+empty map is found (ids on Map nodes are collected), the empty pattern and a pattern whose only value is an
+empty array sit on the root and are found for every event, and boolean arrays are ordered. -/
+theorem repaired_shapes_found :
+    foundIn (piSearch (piAdd PI.empty [("a", .obj [])] "r").1 [("a", .obj [("x", .num 1)])]) "r" = true ∧
+    foundIn (piSearch (piAdd PI.empty [] "r").1 [("a", .num 1)]) "r" = true ∧
+    foundIn (piSearch (piAdd PI.empty [("b", .arr [])] "r").1 [("b", .arr [.num 1])]) "r" = true ∧
+    foundIn (piSearch (piAdd PI.empty [("a", .arr [.bool true, .bool false])] "r").1
+      [("a", .arr [.bool false, .bool true])]) "r" = true ∧
+    foundIn (piSearch (piAdd PI.empty [("a", .arr [.null])] "r").1 [("a", .arr [.null])]) "r" = true := by
+  refine ⟨by decide +kernel, by decide +kernel, by decide +kernel, by decide +kernel, by decide +kernel⟩
+
+#print axioms mod_adds_at_path
+#print axioms mod_rems_at_path
+#print axioms mod_failure_harmless
+#print axioms mod_fuel_independent
+#print axioms search_embeds
+#print axioms piSearch_embeds
+#print axioms piSearch_succeeds
+#print axioms match_embeds
+#print axioms index_invariant
+#print axioms index_ops_frame
+#print axioms index_complete
+#print axioms var_and_const_in_array_missed
+#print axioms var_and_number_in_array_rejected
+#print axioms property_variable_hidden
+#print axioms hetero_event_array_fails
+#print axioms repaired_shapes_found
